@@ -1,11 +1,17 @@
 """C10 -- damaged or truncated mol2/xyz input is rejected, never returned as a partial molecule.
 
 Model: coq/Model/Parse.v (line-at-a-time state machines for read_xyz / read_mol2 + the block -> molecule
-conversions).  Theorems: coq/Props/C10.v.  Tie H: bundled and generated texts x damage operators
-(every line boundary, every byte offset of the last record, line deletions / duplications, token
-corruptions); the implementation runs under a wall-clock limit; what it returned is compared with the model
-INSIDE Coq (vm_compute over `chk_xyz_read` / `chk_mol2_read`).  The Python oracle judges the property
-directly against the undamaged file.
+conversions).  Theorems: coq/Props/C10.v (proofs: coq/Proofs/Parse.v, coq/Proofs/ParseRecords.v).  Tie H: bundled
+and generated texts x damage operators (every line boundary, every byte offset of the last record, line
+deletions / duplications, token corruptions, dropped tokens of the last records); the implementation runs under
+a wall-clock limit; what it returned is compared with the model INSIDE Coq (vm_compute over `chk_xyz_read` /
+`chk_mol2_read`).  The Python oracle judges the property directly against the undamaged file: counts AND content
+of every returned molecule.  Two ways of fooling a count check have oracle clauses of their own:
+  * `...:records-of-another-molecule` -- the declared counts are met with the records of a neighbouring molecule
+    (family: texts whose molecules declare equal counts, cut at every structural boundary);
+  * `...:short-record-accepted:<atom|bond>` -- a record that lost a mandatory column (cut mid-line, token dropped)
+    was made into a different atom / bond.  This is NOT the format limit `last-numeric-token-truncated` (all columns
+    present, the last one shortened), which is a recorded known finding for xyz and would otherwise hide it.
 
 This module also hosts what harness/c08.py shares (generators, canonicalisation, Gen emitters).
 """
@@ -334,6 +340,53 @@ def gen_unity_bases(ml, rng, count):
     return out
 
 
+def equal_count_group(ml, rng, n, k, conformers, hard_last_bond=False):
+    """k molecules declaring the SAME atom and bond counts: conformers (same atoms and bond table, other coordinates) or
+    different molecules (other elements, other bond table, other bond types).  A reader that hands out the records of
+    molecule #i under the header of molecule #i+1 passes every count check on such a text."""
+    from molli.chem import Molecule, Atom, BondType
+    pairs_all = [(i, j) for i in range(n) for j in range(i + 1, n)]
+    nb = rng.randint(1, min(len(pairs_all), n + 1))
+    btypes = [BondType.Single, BondType.Double, BondType.Triple, BondType.Aromatic]
+    elems = [rng.choice(["C", "N", "O", "H", "S", "Cl"]) for _ in range(n)]
+    bonds = [(p, rng.choice(btypes)) for p in rng.sample(pairs_all, nb)]
+    if hard_last_bond:       # the last record of the text: a two-digit endpoint and a type that is not the plain single bond
+        bonds = [b for b in bonds if b[0] != (0, n - 1)][:nb - 1] + [((0, n - 1), rng.choice(btypes[1:]))]
+    ms = []
+    for c in range(k):
+        if c and not conformers:
+            e2 = [rng.choice(["C", "N", "O", "H", "S", "Cl"]) for _ in range(n)]
+            if e2 == elems:
+                e2[0] = "F"
+            elems = e2
+            last = bonds[-1]
+            bonds = [(p, rng.choice(btypes)) for p in rng.sample(pairs_all, len(bonds))]
+            if hard_last_bond:
+                bonds = [b for b in bonds if b[0] != last[0]][:len(bonds) - 1] + [last]
+        m = Molecule(n_atoms=0, name=f"eq-{c}")
+        for i in range(n):
+            m.add_atom(Atom(elems[i]), [round(rng.uniform(-9, 9), 4) + 0.0001 * (c + 1) for _ in range(3)])
+        for (i, j), bt in bonds:
+            m.connect(m.atoms[i], m.atoms[j], btype=bt)
+        ms.append(m)
+    return ms
+
+
+def gen_equal_count_bases(ml, rng, fmt, thorough):
+    """(name, text) of multi-molecule texts whose molecules all declare equal counts."""
+    out = []
+    plan = [(rng.randint(2, 4), rng.randint(2, 3), True, False), (rng.randint(2, 4), rng.randint(2, 3), False, False)]
+    if fmt == "mol2":
+        plan.append((rng.randint(10, 12), 2, rng.random() < 0.5, True))
+    if thorough:
+        plan += [(rng.randint(2, 6), rng.randint(2, 4), rng.random() < 0.5, False) for _ in range(8)]
+    for b, (n, k, conf, hard) in enumerate(plan):
+        ms = equal_count_group(ml, rng, n, k, conf, hard)
+        text = "".join(m.dumps_xyz() if fmt == "xyz" else m.dumps_mol2() for m in ms)
+        out.append((f"gen-eqc-{fmt}-{'conf' if conf else 'diff'}-{b}", text))
+    return out
+
+
 def bundled(ml, fmt, thorough):
     F = ml.files
     if fmt == "xyz":
@@ -375,6 +428,96 @@ def mol2_block_of_line(lines):
     return owner
 
 
+# ------------------------------------------------------------------ record lines of an undamaged text
+# mandatory columns of a record: xyz `sym x y z`; mol2 ATOM `id name x y z type` (the conversion needs the type column);
+# mol2 BOND `id a1 a2 type`.  Trailing columns beyond these are optional in the format.
+MANDATORY = {("xyz", "atom"): 4, ("mol2", "atom"): 6, ("mol2", "bond"): 4}
+
+
+def xyz_roles(lines):
+    roles, i = {}, 0
+    while i < len(lines):
+        try:
+            n = max(int(lines[i]), 0)
+        except ValueError:
+            break
+        roles[i] = "count"
+        if i + 1 < len(lines):
+            roles[i + 1] = "comment"
+        for j in range(i + 2, min(i + 2 + n, len(lines))):
+            roles[j] = "atom"
+        i += 2 + n
+    return roles
+
+
+def mol2_roles(lines):
+    """line index -> 'tag' | 'hdr' | 'atom' | 'bond' for a well-formed mol2 text (counts taken from each header)."""
+    roles, n, i, na, nb = {}, len(lines), 0, 0, 0
+    while i < n:
+        s = lines[i].strip()
+        if not s.startswith("@<TRIPOS>"):
+            i += 1
+            continue
+        roles[i] = "tag"
+        sec = s[len("@<TRIPOS>"):]
+        if sec == "MOLECULE":
+            j = i + 1
+            while j < min(i + 6, n) and not (j == i + 5 and lines[j].strip().startswith("@<TRIPOS>")):
+                roles[j] = "hdr"
+                j += 1
+            try:
+                c = lines[i + 2].split()
+                na, nb = int(c[0]), (int(c[1]) if len(c) > 1 else 0)
+            except (ValueError, IndexError):
+                na = nb = 0
+            i = j
+        elif sec in ("ATOM", "BOND"):
+            k = max(na if sec == "ATOM" else nb, 0)
+            for j in range(i + 1, min(i + 1 + k, n)):
+                roles[j] = "atom" if sec == "ATOM" else "bond"
+            i += 1 + k
+        else:
+            i += 1
+    return roles
+
+
+def roles_of(fmt, lines):
+    return xyz_roles(lines) if fmt == "xyz" else mol2_roles(lines)
+
+
+def short_record(fmt, lines, d):
+    """(role, tokens left, mandatory columns) when the damage left, in the place of an atom / bond record, a line with
+    fewer tokens than the mandatory columns of that record (a record cut mid-line, or one that lost a token)."""
+    if d[0] not in ("cut", "repl") or d[1] >= len(lines):
+        return None
+    surv = d[2] if d[0] == "repl" else lines[d[1]][:d[2]]
+    if surv == "":
+        return None                      # nothing of the line is left: a plain truncation at a line boundary
+    role = roles_of(fmt, lines).get(d[1])
+    need = MANDATORY.get((fmt, role))
+    k = len(surv.split())
+    return (role, k, need) if need is not None and k < need else None
+
+
+def atoms_of(s):
+    return [atom_rec(s, i) for i in range(len(s["elems"]))]
+
+
+def same_atoms(a, b):
+    x, y = atoms_of(a), atoms_of(b)
+    return len(x) == len(y) and all(atom_eq(p, q) for p, q in zip(x, y))
+
+
+def records_of_another(s, j, orig):
+    """Index of a molecule of the undamaged text, other than #j, whose atom records (or bond records) are exactly what the
+    returned molecule #j carries in the part where it differs from the undamaged molecule #j."""
+    da, db = not same_atoms(s, orig[j]), s["bonds"] != orig[j]["bonds"]
+    for i, o in enumerate(orig):
+        if i != j and ((da and s["elems"] and same_atoms(s, o)) or (db and s["bonds"] and s["bonds"] == o["bonds"])):
+            return i
+    return None
+
+
 # ------------------------------------------------------------------ damage plans
 def corrupt_line(rng, line):
     toks = line.split()
@@ -412,13 +555,30 @@ def corrupt_line(rng, line):
     return " ".join(nt), kind
 
 
-def plan_damages(rng, lines, thorough, budget):
+def structural_boundaries(fmt, lines):
+    """Line boundaries at which a text stops being / starts being structurally complete: before and after every record
+    tag, after every header line of every molecule (mol2); before / after the count and comment line and after the last
+    atom of every frame (xyz).  One such boundary per molecule is all a reader that mixes up molecules needs."""
+    n, ks = len(lines), set()
+    roles = roles_of(fmt, lines)
+    for i, r in roles.items():
+        if r in ("tag", "hdr", "count", "comment"):
+            ks.update((i, i + 1))
+    for i in range(n):                       # last record of a section: the boundary right after it
+        if roles.get(i) in ("atom", "bond") and roles.get(i + 1) != roles.get(i):
+            ks.update((i, i + 1))
+    return {k for k in ks if 0 <= k <= n}
+
+
+def plan_damages(rng, lines, thorough, budget, fmt=None, tok_budget=None):
     """List of (damage tuple, kind tag)."""
     n = len(lines)
     ds = [(("none",), "none")]
     ks = list(range(n + 1))
     if not thorough and n > 160:
         ks = sorted(set(rng.sample(ks, 120) + [0, 1, n - 1, n]))
+        if fmt is not None:                  # whatever the sampling did: every structural boundary of every molecule
+            ks = sorted(set(ks) | structural_boundaries(fmt, lines))
     unity = [i for i, l in enumerate(lines) if l.strip().startswith("@<TRIPOS>UNITY_")]
     if unity:     # every boundary inside and right after a UNITY_* section, whatever the sampling above did
         ends = [next((j for j in range(u + 1, n) if lines[j].strip().startswith("@<TRIPOS>")), n) for u in unity]
@@ -445,13 +605,49 @@ def plan_damages(rng, lines, thorough, budget):
     for i in tags:
         ds.append((("repl", i, lines[i].rstrip() + "X"), "tok-tag"))
         ds.append((("repl", i, lines[i].replace("@<TRIPOS>", "@<TRIPOS>_", 1)), "tok-tag"))
-    for _ in range(min(per, 3 * max(n, 1))):
+    for _ in range(min(per if tok_budget is None else tok_budget, 3 * max(n, 1))):
         if not n:
             break
         i = rng.randrange(n)
         new, kind = corrupt_line(rng, lines[i])
         if new != lines[i] and "\n" not in new and all(32 <= ord(c) < 127 for c in new):
             ds.append((("repl", i, new), "tok-" + kind))
+    if fmt is not None:
+        ds += plan_record_damages(fmt, lines, thorough)
+    return ds
+
+
+def plan_record_damages(fmt, lines, thorough):
+    """Deterministic damage of record lines (no randomness): for the LAST atom record and the LAST bond record of the last
+    molecule (of every molecule in the thorough tier) each single token of the mandatory columns and of the first optional
+    one dropped (`rec-drop`; every token in the thorough tier); when the last record of the text is not its last line (a molecule without bonds, trailing UNITY / SUBSTRUCTURE sections)
+    the text is also cut inside that record: first character and end of every token, every byte in the thorough tier
+    (`cut-record`; the last line of a text is already cut at every byte by `cut-last`)."""
+    roles = roles_of(fmt, lines)
+    n = len(lines)
+    ends = [i for i in range(n) if roles.get(i) in ("atom", "bond") and roles.get(i + 1) != roles.get(i)]
+    if not ends:
+        return []
+    owner = (xyz_block_of_line if fmt == "xyz" else mol2_block_of_line)(lines)
+    blocks = sorted({owner[i] for i in ends})
+    keep = set(blocks) if thorough else {blocks[-1]}
+    ds = []
+    for i in ends:
+        if owner[i] not in keep:
+            continue
+        toks = lines[i].split()
+        for j in range(len(toks) if thorough else min(len(toks), MANDATORY[(fmt, roles[i])] + 1)):
+            ds.append((("repl", i, " ".join(toks[:j] + toks[j + 1:])), "rec-drop"))
+        if i == ends[-1] and i != n - 1:
+            offs = set(range(1, len(lines[i])))
+            if not thorough:                 # first character and end of every token
+                offs, pos = set(), 0
+                for t in toks:
+                    a = lines[i].index(t, pos)
+                    pos = a + len(t)
+                    offs.update((a + 1, pos))
+                offs.discard(len(lines[i]))
+            ds += [(("cut", i, b), "cut-record") for b in sorted(offs) if b >= 1]
     return ds
 
 
@@ -484,6 +680,13 @@ def judge(fmt, lines, owner, orig, d, kind, outcome):
         if sig_eq(s, orig[j]):
             continue
         diff = sig_diff_records(s, orig[j])
+        sr = short_record(fmt, lines, d)
+        if sr and hit == j:
+            # not a format limit: the record visibly lacks a mandatory column, and what was made of it is not what the file says
+            return (f"C10:{fmt}:short-record-accepted:{sr[0]}",
+                    f"{sr[0]} record {lines[d[1]]!r} reduced to {(d[2] if d[0] == 'repl' else lines[d[1]][:d[2]])!r} "
+                    f"({sr[1]} of {sr[2]} mandatory columns) is accepted and molecule #{j} differs from the undamaged one "
+                    f"(record diff {diff}; damage {d})")
         if d[0] == "cut" and d[1] == len(lines) - 1 and j == len(orig) - 1 and diff in ((1, 0), (0, 1)):
             # the cut fell inside the last token of the last record: no reader can notice (format limit)
             return (f"C10:{fmt}:last-numeric-token-truncated",
@@ -493,6 +696,11 @@ def judge(fmt, lines, owner, orig, d, kind, outcome):
         if d[0] == "cut" and d[1] != len(lines) - 1 and hit == j and diff in ((1, 0), (0, 1)) and j == len(ret) - 1:
             return (f"C10:{fmt}:last-numeric-token-truncated",
                     f"cut at byte {d[2]} of line {d[1]} is accepted; only that record differs")
+        oth = records_of_another(s, j, orig)
+        if oth is not None:
+            return (f"{tag}:records-of-another-molecule",
+                    f"molecule #{j} returned after damage {d} has the declared counts but carries the atom or bond records of "
+                    f"molecule #{oth} of the undamaged text (record diff against its own original {diff})")
         return (f"{tag}:partial-molecule",
                 f"molecule #{j} returned after damage {d} differs from the undamaged one "
                 f"(n_atoms {s['n_atoms']} vs {orig[j]['n_atoms']}, n_bonds {s['n_bonds']} vs {orig[j]['n_bonds']}, record diff {diff})")
@@ -540,6 +748,9 @@ def collect(ctx, rep, ml, fmt):
     else:
         # texts with UNITY_* sections come right after isornitrate: they must always be truncated at EVERY line boundary
         bases = bases[:1] + gen_unity_bases(ml, rng, 6 if not thorough else 25) + bases[1:] + gen_mol2_bases(ml, rng, ngen if thorough else 10)
+    # texts whose molecules declare equal counts; own random stream, so that the families above keep theirs
+    import random
+    bases += gen_equal_count_bases(ml, random.Random(ctx.seed * 7919 + (1010 if fmt == "xyz" else 1011)), fmt, thorough)
     hangs = 0
     table = MolTable()
     base_lines, cases, meta, tokens = [], [], [], set()
@@ -570,7 +781,12 @@ def collect(ctx, rep, ml, fmt):
         bi = len(base_lines)
         base_lines.append(lines)
         budget = 40 if len(lines) > 60 else 200
-        plan = plan_damages(rng, lines, thorough, budget)
+        eqc = bname.startswith("gen-eqc-")
+        if eqc:
+            rep.count(f"{fmt}:base:equal-counts")
+        if len(orig) > 1 and len({(o["n_atoms"], o["n_bonds"]) for o in orig}) < len(orig):
+            rep.count(f"{fmt}:base:some-molecules-with-equal-counts")
+        plan = plan_damages(rng, lines, thorough, budget, fmt=fmt, tok_budget=24 if eqc and not thorough else None)
         # every planned damage goes through the implementation and the oracle; the comparison with the model inside Coq
         # re-parses the whole text per case, so for long texts it gets a sample (always incl. what the oracle flagged)
         cap = max(80, (200_000 if thorough else 40_000) // max(len(lines), 1))
@@ -604,9 +820,12 @@ def run(ctx, rep):
     import warnings
     warnings.simplefilter("ignore")
     import molli as ml
-    rep.rule = ("bundled + generated xyz/mol2 texts x damage operators: every line boundary, every byte offset of the last "
-                "line, line deletions, duplications, token corruptions; a case is non-trivial when the text was actually "
-                "damaged; distinct by (format, base text, damage)")
+    rep.rule = ("bundled + generated xyz/mol2 texts (incl. multi-molecule texts whose molecules declare EQUAL counts: conformers "
+                "and different molecules) x damage operators: every line boundary (long texts: a sample plus every structural "
+                "boundary of every molecule), every byte offset of the last line, line deletions, duplications, token corruptions, "
+                "each token of the last atom / bond record dropped; every returned molecule is compared in CONTENT (elements, "
+                "labels, coordinates, bond endpoints and types, charges) with the molecule at the same position of the undamaged "
+                "text; a case is non-trivial when the text was actually damaged; distinct by (format, base text, damage)")
     rep.trusted += ["harness/c10.py: damage operators mirrored in Coq (apply_damage), canonicalisation of returned molecules, "
                     "exact rationals for observed floats",
                     "CPython: io.StringIO line iteration, str.split/strip, int(), float() (modelled in Common/ParseStr.v for ASCII)",
@@ -622,12 +841,28 @@ def run(ctx, rep):
         vlib.broken_obligation(rep, "C10_props", f"{where}\n{out[-1500:]}", False)
         return
     for fmt in ("xyz", "mol2"):
+        t0 = time.time()
         base_lines, table, cases, meta, tokens = collect(ctx, rep, ml, fmt)
         if fmt == "xyz":
             head = header_for(fmt, base_lines, table)
         else:
             head = header_for(fmt, base_lines, table, atype_table(tokens), btype_keys())
-        bad = vlib.run_shards(ctx, rep, fmt, head, "chk", cases, shard=250 if fmt == "mol2" else 400, timeout=900)
+        t1 = time.time()
+        # the base texts and the table of observed molecules (exact rationals) take 10-20 s to type-check: compiled ONCE into
+        # a module next to the shards (coqc has the current directory in its load path), every shard only loads it
+        hp = os.path.join(ctx.sub("shards_" + fmt), f"c10hdr_{fmt}.v")
+        open(hp, "w").write("(* generated by the correspondence harness; not kept *)\n" + head)
+        rc, hout = vlib.coqc(hp, 900)
+        rep.oblig(f"corr_{fmt}_header", rc == 0)
+        if rc != 0:
+            vlib.broken_obligation(rep, f"corr_{fmt}", "table of base texts / observed molecules does not compile:\n" + hout[-1500:], False)
+            continue
+        t2 = time.time()
+        bad = vlib.run_shards(ctx, rep, fmt, HEAD + f"Require Import c10hdr_{fmt}.\n", "chk", cases,
+                              shard=250 if fmt == "mol2" else 400, timeout=900)
+        if os.environ.get("C10_TIMING"):
+            print(f"[C10 timing] {fmt}: implementation+oracle {t1 - t0:.1f}s, table module {t2 - t1:.1f}s, "
+                  f"{len(cases)} cases in shards {time.time() - t2:.1f}s", file=sys.stderr)
         if bad is None:
             vlib.broken_obligation(rep, f"corr_{fmt}", json.dumps(rep.extra.get("shard_errors", ""))[-1500:], False)
             continue
